@@ -1,7 +1,7 @@
 #!/bin/bash
 # tools/sweep.sh [quick|thorough] [seed] : runs every check in turn, prints one line per check.
 tier="${1:-quick}"; seed="${2:-1}"
-cd /verif
+cd "$(dirname "$0")/.." || exit 2
 ./check --setup >/dev/null 2>&1 || { echo "setup failed"; exit 2; }
 rc=0
 for i in $(seq 1 20); do
